@@ -4,7 +4,7 @@ from vlib import Failure, finish, hexs
 
 COQ_FILES = L.LOOP_COQ_FILES + L.REFINE_COQ_FILES + ["LoopDrainProofs.v"] + L.CANCEL_COQ_FILES + ["LoopCancelDrainProofs.v", "LoopMute.v", "LoopMuteProofs.v"]
 
-GARBAGE = [b"foo\n", b"\xff\xfe\n", b"ACK [5@0] {} nope\n", b"OK\nOK\n", b"x: y\n", b"binary: 99999\n", b"list_OK\nOK\n", b"ACK [x@0] {} z\n", b"OK\n",
+GARBAGE = [b"foo\n", b"\xff\xfe\n", b"ACK [5@0] {} nope\n", b"OK\nOK\n", b"x: y\n", b"binary: 99999\n", b"binary: 18446744073709551615\n", b"binary: 9223372036854775807\n", b"x: y\nbinary: 9223372036854775808\nabc", b"list_OK\nOK\n", b"ACK [x@0] {} z\n", b"OK\n",
            # one or two bytes that cannot begin anything the server may send: malformed at once, however little has arrived
            b"\n", b"\xff\xfe", b"\xff", b":", b" ", b"\n\n", b"0"]
 INVALID = {b"foo\n", b"\xff\xfe\n", b"ACK [x@0] {} z\n", b"\n", b"\xff\xfe", b"\xff", b":", b" ", b"\n\n", b"0"}
